@@ -457,6 +457,17 @@ def users_guard_drop_unconditional(ctx, r, rule):
     ctx.ob(rule, 'the users guard undoes the count on every path of its Drop', ok, ctx.where(d),
            'the undo in Drop is conditional: a get() that ends on the skipped path (unwinding, abandoned) stays counted in users / status().waiting forever' if not ok else '',
            construct='users-guard-drop-conditional')
+    if how[0] == 'closure' and how[1] in prog.bodies:
+        # the closure the guard carries: the decrement itself is on every path to its return.  A switch on a constant
+        # (`cfg!(..)`, `debug_assert!(users.fetch_sub(1) > 0)`) counts as two feasible arms: the other build takes the other one
+        cb = prog.bodies[how[1]]
+        can = prog.an(cb)
+        subs = [blk.idx for blk in cb.blocks if blk.term.kind == 'call' and not blk.cleanup and any(n.endswith('::fetch_sub') for n in blk.term.callee_names())]
+        esc = can.reach([0], ('normal',), avoid=subs)
+        okc = bool(subs) and not any(e in esc for e in can.exits()['return'])
+        ctx.ob(rule, 'the closure of the users guard decrements on every path to its return', okc, ctx.where(cb),
+               'a path through the closure returns without the fetch_sub (a constant / cfg!-governed switch is two paths: the build with the other setting takes the other arm): users is never given back there' if not okc else '',
+               construct='users-guard-closure-conditional')
 
 
 BUILDER = 'deadpool::managed::builder::PoolBuilder'
@@ -543,3 +554,40 @@ def pool_level_timeouts(ctx, r, rule):
         ok = ok and not any(x[0] == 'call' and x[1].endswith('Default>::default') for x in src) and not any(x[0] == 'agg' and x[1].startswith(TMO) for x in src)
         detail = 'argument from %s' % sorted({str(x[1]) for x in src if x[0] in ('call', 'field', 'agg')})
     ctx.ob(rule, 'get() waits, creates and recycles under the pool-level timeouts', ok, ctx.where(b), detail, construct='get:pool-timeouts')
+
+
+def paired_counters(ctx, r, rule, bodies):
+    """a counter of the pool that a get() both increments and decrements (a private "in flight" / "queued" statistic, whatever
+    it is called) is restored on every way out of the call - return, unwinding, and abandonment at a suspension point -
+    unless a guard local whose Drop performs the decrement is held"""
+    prog = ctx.prog
+    others = set(getattr(r, 'OTHER_ATOMICS', []))
+    n = 0
+    for b in bodies:
+        an = prog.an(b)
+        ops = {}
+        for blk in b.blocks:
+            t = blk.term
+            if t.kind != 'call' or blk.cleanup or not t.args:
+                continue
+            meth = [nm.split('::')[-1] for nm in t.callee_names() if 'atomic' in nm and nm.split('::')[-1] in ('fetch_add', 'fetch_sub')]
+            if not meth:
+                continue
+            flds = {s_[1].split('.')[-1] for s_ in sources(an, t.args[0]) if s_[0] == 'field' and s_[1].startswith(r.INNER + '.')}
+            for f_ in flds & others:
+                ops.setdefault(f_, {'fetch_add': [], 'fetch_sub': []})[meth[0]].append(blk)
+        for f_, d in sorted(ops.items()):
+            if not d['fetch_add'] or not d['fetch_sub']:
+                continue
+            decs = [x.idx for x in d['fetch_sub']]
+            for inc in d['fetch_add']:
+                n += 1
+                esc = an.reach_after(inc.idx, ('normal', 'unwind', 'cancel'), avoid=decs)
+                ex = an.exits()
+                leaks = sorted({b.blocks[e].term.kind for k_ in ('return', 'resume', 'cancel') for e in ex.get(k_, []) if e in esc})
+                # which suspension points lie between?  (for the message)
+                ys = sorted({b.blocks[x].term.line for x in esc if b.blocks[x].term.kind == 'yield'})
+                ctx.ob(rule, 'counter `%s` incremented during get() is restored on every way out' % f_, not leaks, ctx.where(b, inc.term.line),
+                       'after this increment the call can end (%s) without the matching decrement; suspension points in between: lines %s - a get() abandoned there leaves `%s` raised for good' % (', '.join(leaks), ys, f_) if leaks else '',
+                       construct='paired-counter:%s' % f_)
+    ctx.count('paired_counters_examined', n)
